@@ -414,6 +414,20 @@ theorem C15_rfc5322_uncovered (dt : Spec.DateTime) (l : Spec.DateLayout) (zn : B
   Proofs.Strp.timeParse_render_uncovered dt l zn
     (Proofs.Strp.textOK_of_wellFormed dt l hwf hy (by rw [hd]; intro h; exact absurd h (by decide))) hd hs
 
+/-- The statement WITHOUT `Covered`: every date-time the grammar of RFC 5322 3.3 generates is parsed to its instant.  The code does
+not satisfy it (`C15_rfc5322_not_all`); `C15_rfc5322_end_to_end` is this statement restricted to `Covered`. -/
+def Rfc5322AllDateTimes : Prop :=
+  ∀ (dt : Spec.DateTime) (l : Spec.DateLayout) (zn : Bytes → Option Int), Spec.WellFormed dt l →
+    timeParse timeparseC zn (Spec.renderDate dt l) = some (Spec.instant dt)
+
+/-- `15 Jan 2026 12:00 +0000` refutes it. -/
+theorem C15_rfc5322_not_all : ¬ Rfc5322AllDateTimes := by
+  intro h
+  have hwf : Spec.WellFormed ⟨none, 15, 1, 2026, 12, 0, none, true, 0, 0⟩ { fwsDay := [] } := by decide +kernel
+  have h1 := h _ _ (fun _ => none) hwf
+  rw [C15_rfc5322_uncovered _ _ _ hwf (by decide) rfl rfl] at h1
+  exact absurd h1 (by simp)
+
 /-- Non-vacuity of `C15_rfc5322_uncovered`, and the witnesses that each clause of `Covered` is needed (all well-formed by the RFC):
 * `15 Jan 2026 12:00 +0000`: neither day of week nor seconds - error;
 * `Thu, 15 Jan 10000 12:00:00 +0000`: a five-digit year - error;
